@@ -228,7 +228,16 @@ theorem init_bias_wf (r : RegionId) (maxPower : Nat) (gain : Int) (sb retries : 
     (hsb : 1 ≤ sb ∧ sb ≤ 8) :
     MacWF (MacState.init ((RegionState.init r).setJoinBias sb retries) maxPower gain) := by
   apply MacWF.mk
-  · cases r <;> first | rfl | (simp [MacState.init, RegionState.init, RegionState.setJoinBias, RegionId.isFixed, regionWF, jcWF, Mask.default]; omega)
+  · have hfix : ∀ r : RegionId, r.isFixed = true →
+        regionWF (MacState.init ((RegionState.init r).setJoinBias sb retries) maxPower gain).region = true := by
+      intro r hf
+      have hp : (MacState.init ((RegionState.init r).setJoinBias sb retries) maxPower gain).region.plan =
+          .fix { mask := Mask.default, jc := { preferredSubband := some sb, maxRetries := retries } } := by
+        simp [MacState.init, RegionState.init, RegionState.setJoinBias, hf]
+      refine (regionWF_fix hp).mpr ⟨?_, rfl, jcWF_iff.mpr ⟨rfl, ?_, avInv_fresh, biasFresh_iff.mpr (fun _ _ => ⟨rfl, rfl⟩)⟩⟩
+      · simp [MacState.init, RegionState.init, RegionState.setJoinBias, hf]
+      · intro sb' e; cases e; exact hsb
+    cases r <;> first | rfl | exact hfix _ rfl
   · cases r <;> rfl
   · cases r <;> exact hg
   · rfl
